@@ -482,8 +482,11 @@ CallbackE ==
 (***************************************************************************)
 (* WaitStatus.                                                             *)
 (***************************************************************************)
+\* (a notification whose context - the one ServerOptions.NewContext handed out - has ended was handed to the
+\* invocation all the same; the wait for a slot it never got is the application's doing, not the stop's)
 ValidNotesServed ==
-  \A t \in DOMAIN mem : (mem[t].k = "note" /\ mem[t].m \notin {"nf", "rpc"} /\ mem[t].st # "gone") => mem[t].st = "done"
+  \A t \in DOMAIN mem : (mem[t].k = "note" /\ mem[t].m \notin {"nf", "rpc"} /\ mem[t].st # "gone") =>
+                             (mem[t].st = "done" \/ (BaseDone /\ mem[t].st = "ready"))
 
 WaitStatus ==
   /\ IsEvent("WaitStatus")
